@@ -53,7 +53,7 @@ func TestProp(t *testing.T) {
 		// second engine: the generated helpers rewritten onto the model scheduler, interleavings enumerated
 		s2 := e2.ConcurrentSubject()
 		e2.RunCase(c, rt, s2, e2.Options{Property: prop, Harness: "c19m", Checks: modelChecks(c), Patterns: []string{"./p", "./p2"}, TestRun: "^TestHModel$",
-			Env: []string{"VERIF_MODEL_SHARD=" + strconv.Itoa(c.Shard%c.NShards), "VERIF_MODEL_NSHARDS=" + strconv.Itoa(c.NShards)},
+			Env:           []string{"VERIF_MODEL_SHARD=" + strconv.Itoa(c.Shard%c.NShards), "VERIF_MODEL_NSHARDS=" + strconv.Itoa(c.NShards)},
 			AfterGenerate: e2.ModelAfterGenerate(c)})
 	})
 }
